@@ -401,7 +401,7 @@ func genCase(t *rapid.T) *Case {
 // knownAvoid: generator restrictions still needed because the corresponding goja
 // defect is recorded as a known finding (everything else has been fixed).
 var fixedDefects = []string{"seq-logical-first", "lexical-after-branch", "const-dead-branch", "logical-assign-prim", "pattern-prim-target",
-	"arrow-arguments", "eval-rest-default", "eval-surplus-args", "nested-labels-continue", "key-side-effects"}
+	"arrow-arguments", "eval-rest-default", "eval-surplus-args", "nested-labels-continue", "key-side-effects", "finally-throws"}
 
 func TestQuickPrograms(t *testing.T) {
 	for _, k := range fixedDefects {
@@ -412,7 +412,7 @@ func TestQuickPrograms(t *testing.T) {
 			evid.ExcludedN("generator restriction for known finding: "+k, int64(n))
 		}
 	}()
-	evid.Check(t, "programs", 6000, 8, func(t *rapid.T) {
+	evid.Check(t, "programs", 16000, 6, func(t *rapid.T) {
 		c := genCase(t)
 		v := judge(c)
 		nontrivial := v.defNontriv
